@@ -20,6 +20,11 @@ WIRE_REPLAY = [
     {"match": "types.(", "driver": "types_wire", "pkg": "types", "case": "ints"},
 ]
 
+def ops_replay(*cases):
+    """replay rules for operation-level obligations: obligation label -> case of the uhppote_ops driver"""
+    return [{"match": "#ensures:" + label, "driver": "uhppote_ops", "pkg": "uhppote", "case": case} for label, case in cases] + \
+           [{"match": "uhppote.sendto$1", "driver": "uhppote_ops", "pkg": "uhppote", "case": "route"}]
+
 def entry(id, **kw):
     e = {"id": id, "level": "proof", "pinned": {}, "not_decided": [], "replay": []}
     e.update(kw)
@@ -35,7 +40,7 @@ new = []
 new.append(entry("C01",
     functions=OPS + ["types.(Date).MarshalUT0311L0x", "types.(DateTime).MarshalUT0311L0x", "types.(HHmm).MarshalUT0311L0x", "types.(PIN).MarshalUT0311L0x",
                      "types.(SerialNumber).MarshalUT0311L0x", "encoding/bcd.Encode"],
-    scope=[OPRE + r"ensures:(wire|once)$", OPRE + r"requires:", r"^types\.\(\w+\)\.MarshalUT0311L0x#", r"^encoding/bcd\.Encode#"], replay=WIRE_REPLAY,
+    scope=[OPRE + r"ensures:(wire|once)$", OPRE + r"requires:", r"^types\.\(\w+\)\.MarshalUT0311L0x#", r"^encoding/bcd\.Encode#"], replay=ops_replay(("wire", "wire"), ("once", "wire")) + WIRE_REPLAY,
     pinned_file="pins_uhppote.json", pinned_labels=["contract", "macro"],
     assumptions=COMMON_ASSUME,
     not_decided=["GetDevices (discovery broadcast) request bytes: decided under C11's contracts"],
@@ -45,13 +50,14 @@ new.append(entry("C02",
                      "types.(*HHmm).UnmarshalUT0311L0x", "types.(*PIN).UnmarshalUT0311L0x", "types.(*SerialNumber).UnmarshalUT0311L0x", "types.(*Version).UnmarshalUT0311L0x",
                      "types.(*MacAddress).UnmarshalUT0311L0x", "encoding/bcd.Decode"],
     scope=[OPRE + r"ensures:(result|accept)$", OPRE + r"requires:", r"^types\.\(\*\w+\)\.UnmarshalUT0311L0x#", r"^encoding/bcd\.Decode#"],
-    scope_exclude=[r"#ensures:civil$"], replay=WIRE_REPLAY,
+    scope_exclude=[r"#ensures:civil$"], replay=ops_replay(("result", "result"), ("accept", "result")) + WIRE_REPLAY,
     pinned_file="pins_uhppote.json", pinned_labels=["contract", "macro"],
     assumptions=COMMON_ASSUME,
     explanation="The `result` postcondition of every operation states each returned field as a function of the reply bytes R (offset and encoding from the protocol table) and the sentinels; `accept` states the domain conditions under which a reply may be turned into a result at all (boolean bytes 0/1, event type != 0xff, echoed card/profile). The per-type decoders are verified against contracts that make out-of-domain bytes an error or the zero value."))
 new.append(entry("C03",
     functions=OPS + ["uhppote.(*uhppote).udpBroadcastTo$1", "uhppote.sendto$1", "uhppote.(*ut0311).BroadcastTo", "uhppote.(*ut0311).SendUDP", "uhppote.(*ut0311).SendTCP"],
     scope=[OPRE + r"ensures:accept$", OPRE + r"requires:", r"^uhppote\.\(\*uhppote\)\.udpBroadcastTo\$1#", r"^uhppote\.sendto\$1.*#ensures:(reply|norep|fail)$", r"^uhppote\.\(\*ut0311\)\.\w+#(ensures:(accepted|noreply|reply|failed)|loop1\.|requires:)"],
+    replay=ops_replay(("accept", "accept")),
     pinned_file="pins_uhppote.json", pinned_labels=["contract", "macro"],
     assumptions=COMMON_ASSUME,
     not_decided=["'keeps waiting for S until its deadline' is a statement about time; only its safety half (a rejected datagram is never returned) is decided"],
@@ -59,6 +65,7 @@ new.append(entry("C03",
 new.append(entry("C06",
     functions=OPS + ["uhppote.sendto$1", "uhppote.(*ut0311).BroadcastTo", "uhppote.(*ut0311).SendUDP", "uhppote.(*ut0311).SendTCP"],
     scope=[OPRE + r"ensures:(route|once)$", OPRE + r"requires:", r"^uhppote\.sendto\$1", r"^uhppote\.\(\*ut0311\)\.\w+#(ensures:(one|bind|dial|sent|once)|loop1\.|requires:)"],
+    replay=ops_replay(("route", "route"), ("once", "route")),
     pinned_file="pins_uhppote.json", pinned_labels=["contract", "macro"],
     assumptions=COMMON_ASSUME + ["net.UDPAddrFromAddrPort / TCPAddrFromAddrPort / net.IPv4bcast / IP.To4 models (engine/vc/libnet.go)"],
     not_decided=["IP-level fan-out of a broadcast ('no other endpoint receives anything') is outside function contracts; stated at the level of driver and socket calls",
@@ -67,6 +74,7 @@ new.append(entry("C06",
 new.append(entry("C07",
     functions=OPS + ["uhppote.isWiegand26", "uhppote.isCardNumberValid"],
     scope=[OPRE + r"ensures:(reject|once)$", OPRE + r"requires:", r"^uhppote\.isWiegand26#", r"^uhppote\.isCardNumberValid#"],
+    replay=ops_replay(("reject", "reject"), ("once", "reject"), ("w26", "reject"), ("valid", "reject")),
     pinned_file="pins_uhppote.json", pinned_labels=["contract", "macro"],
     assumptions=COMMON_ASSUME + ["fmt.Sprintf(\"%08v\", uint32) = decimal digits zero-padded to 8 (digit witnesses); strconv.Atoi of an all-digit string is its decimal value"],
     explanation="`reject`: invalid arguments (the INVALID predicate transcribed from the property statement) give an error with the ghost trace `sent` unchanged; `once`: every other argument tuple (in the encodable domain) sends exactly one request, i.e. a call is rejected only for the listed reasons. Wiegand-26 is the arithmetic predicate card/100000 <= 255 && card%100000 <= 65535."))
@@ -136,7 +144,7 @@ new.append(entry("C05",
     explanation="For each of the 65 message structs T (32 requests, 31 replies, Event, EventV6_62) the lemma function lemmaRoundTrip<T>(v) = Unmarshal(Marshal(v)) is verified with the reflective codec executed on its real body: for every in-domain v decoding succeeds and every integer/boolean/PIN/HH:mm/IPv4/address:port/MAC/version field of the result equals the field of v; lemmaDecode<T>(b) shows that an arbitrary byte string is only accepted when it is 64 bytes long and carries T's protocol id and function code."))
 
 
-new.append(entry("C13",
+new.append(entry("C13", conformance=["timeconf"],
     functions=["types.ToDate", "types.ParseDate", "types.(*Date).UnmarshalUT0311L0x", "types.(Date).MarshalUT0311L0x", "types.(*DateTime).UnmarshalUT0311L0x", "types.(DateTime).MarshalUT0311L0x",
                "types.(*SystemDate).UnmarshalUT0311L0x", "types.(*SystemTime).UnmarshalUT0311L0x", "types.lemmaRoundTripDate", "types.lemmaRoundTripDateTime"],
     scope=[r"^types\."],
